@@ -1,4 +1,5 @@
 import OV.Lemmas.C03Steps
+import OV.Lemmas.C03Uses
 /-!
 # C03 — `optimize()` never changes what a model computes
 
@@ -288,6 +289,31 @@ theorem pipeline_preserves (sem : Sem V) (d : Nat) (P : IrPasses) (C : PassContr
   have h6 := Refines.trans h5 (C.cse _)
   have h7 := Refines.trans h6 (C.outputFix _)
   exact Refines.trans h7 (C.nameFix _)
+
+/-! ### end to end on a delimited fragment -/
+
+/-- **End-to-end theorem on the generic-folding fragment.**  For every graph whose nodes carry no
+bodies, are not `Constant` nodes and have no registered partial evaluator (`FragWF`: also ordered,
+single-assignment, outputs distinct from the formal inputs, no name of the form `%k`), for every
+option tuple in `ctx` (input/output size limits, `should_fold`, opset imports, any oracle table
+satisfying A-ref = `OracleSound`), every annotation table that is truthful about constants
+(`ConstInfoSound`, A-shape), every operator semantics, nesting depth, enclosing environment and
+argument list: **the graph returned by the model of `FoldConstantsPass` — node loop, gate
+cascade, reference evaluation, `new_initializer`, `replace_node` and `_clear_unused_initializers`
+all included — computes what the original computes.**  Proof: simulation through `visitNodes`
+(`visitNodes_sim`: invariant "every constant the state knows is what the environment holds, the
+symbolic map is empty, no known constant is redefined later"; folded outputs are bound early as
+initializers and pushed through the kept prefix by the frame lemma), plus the bookkeeping
+invariant (`visitNodes_bk`: use counts are upper bounds of real occurrences, so a popped
+initializer is unmentioned) and `prune_sound`. -/
+theorem fold_generic_fragment_preserves (sem : Sem V) (ctx : Ctx) (hnf : ctx.isFunction = false)
+    (hor : OracleSound sem ctx) (info : List (Name × VInfo)) (g : Graph) (hwf : FragWF g)
+    (hnofresh : ∀ k : Nat, cnt ("%" ++ toString k) g.nodes = 0)
+    (d : Nat) (outer : Env V) (args : List (Option V))
+    (hinfo : ConstInfoSound sem outer g args info) (vs : List V)
+    (he : evalGraph sem (d + 1) outer g args = some vs) :
+    evalGraph sem (d + 1) outer (foldGraph ctx info g).2 args = some vs :=
+  foldGraph_fragment sem ctx hnf hor info g hwf hnofresh d outer args hinfo vs he
 
 /-! ### partial evaluators (under the operator laws `OpLaws` and truthful annotations `InfoSound`) -/
 
@@ -580,6 +606,105 @@ example (g : Graph) (o : OptOpts) :
   pipeline_preserves natSem 3 _ ⟨fun g => Refines.refl _ _ g, fun g => Refines.refl _ _ g, fun g => Refines.refl _ _ g,
     fun g => Refines.refl _ _ g, fun g => Refines.refl _ _ g, fun g => Refines.refl _ _ g, fun g => Refines.refl _ _ g,
     fun g => Refines.refl _ _ g, fun g => Refines.refl _ _ g⟩ _ (fun g => Refines.refl _ _ g) o g
+
+/-! ### non-vacuity of the end-to-end theorem: a graph of the fragment on which folding fires -/
+
+/-- every operator yields the value `3`, every constant is `3`: any oracle table is then sound -/
+def threeSem : Sem Nat where
+  op := fun _ _ _ _ => some [3]
+  ctl := fun _ _ _ _ _ => none
+  truth := fun _ => none
+  tensor := fun _ => 3
+  intsTensor := fun _ => 3
+  intTensor := fun _ => 3
+
+def tokA : CInfo := { tok := "t1", dtype := 1, shape := [], ints := none, isZero := some false }
+def tokB : CInfo := { tok := "t2", dtype := 1, shape := [], ints := none, isZero := some false }
+
+def ctxE : Ctx :=
+  { inLimit := 8192, outLimit := 262144, shouldFold := none, imports := [("", 18)], isFunction := false,
+    toks := [("t1", tokA), ("t2", tokB)],
+    oracle := [("Mul||18|t1&t2|", .single { tok := "f", dtype := 1, shape := [], ints := none, isZero := some false })] }
+
+/-- `o = Mul(a, b); y = Sub(x, o)` with initializers `a`, `b` -/
+def gE : Graph :=
+  .mk ["x"] [("a", "t1"), ("b", "t2")]
+    [.mk "Mul" "" [some "a", some "b"] ["o"] [] [], .mk "Sub" "" [some "x", some "o"] ["y"] [] []] ["y"]
+
+def infoE : List (Name × VInfo) :=
+  [("a", { dtype := some 1, shape := some [], const := some tokA }), ("b", { dtype := some 1, shape := some [], const := some tokB })]
+
+/-- folding does fire on `gE`: the `Mul` disappears, `o` becomes an initializer, `a` and `b` are popped -/
+example : (foldGraph ctxE infoE gE).2.nodes.map (·.op) = ["Sub"] ∧
+    (foldGraph ctxE infoE gE).2.inits = [("o", "f")] := by decide
+
+theorem fresh_ne (k : Nat) (s : String) (hs : s.toList.head? ≠ some '%') : "%" ++ toString k ≠ s := by
+  intro h
+  apply hs
+  rw [← h]
+  simp [String.toList_append]
+
+/-- every hypothesis of `fold_generic_fragment_preserves` holds for `gE`, for every argument list
+and enclosing environment -/
+example (outer : Env Nat) (args : List (Option Nat)) (vs : List Nat)
+    (he : evalGraph threeSem 1 outer gE args = some vs) :
+    evalGraph threeSem 1 outer (foldGraph ctxE infoE gE).2 args = some vs := by
+  refine fold_generic_fragment_preserves threeSem ctxE rfl (fun _ _ _ _ _ _ => rfl) infoE gE ⟨?_, by decide, ?_⟩ ?_ 0 outer args ⟨?_, ?_⟩ vs he
+  · intro n hn
+    simp only [gE, Graph.nodes, List.mem_cons, List.mem_nil_iff, or_false] at hn
+    rcases hn with rfl | rfl
+    · exact ⟨rfl, by decide, fun v => rfl⟩
+    · exact ⟨rfl, by decide, fun v => rfl⟩
+  · intro n hn o ho
+    simp only [gE, Graph.nodes, List.mem_cons, List.mem_nil_iff, or_false] at hn
+    rcases hn with rfl | rfl
+    · have : o = "o" := by simpa [Node.outputs] using ho
+      subst this; decide
+    · have : o = "y" := by simpa [Node.outputs] using ho
+      subst this; decide
+  · intro k
+    have h1 := fresh_ne k "a" (by decide)
+    have h2 := fresh_ne k "b" (by decide)
+    have h3 := fresh_ne k "x" (by decide)
+    have h4 := fresh_ne k "o" (by decide)
+    simp only [cnt, gE, Graph.nodes, List.flatMap_cons, List.flatMap_nil, Node.inputs, List.append_nil, List.cons_append,
+      List.nil_append]
+    apply List.count_eq_zero.mpr
+    simp only [List.mem_cons, Option.some.injEq, List.mem_nil_iff, or_false]
+    intro h
+    rcases h with h | h | h | h
+    · exact h1 h
+    · exact h2 h
+    · exact h3 h
+    · exact h4 h
+  · intro ρ0 h0 x c hx
+    show ρ0 x = some 3
+    have hxa : x = "a" ∨ x = "b" := by
+      by_cases ha : x = "a"
+      · exact Or.inl ha
+      · by_cases hb : x = "b"
+        · exact Or.inr hb
+        · exfalso
+          have h1 : ("a" == x) = false := by simpa using fun e => ha e.symm
+          have h2 : ("b" == x) = false := by simpa using fun e => hb e.symm
+          simp [infoE, lookupA, List.find?, h1, h2] at hx
+    rcases hxa with rfl | rfl
+    · exact (initializer_is_constant threeSem (evalGraph threeSem 0) outer ["x"] [("a", "t1"), ("b", "t2")] gE.nodes ["y"] []
+        args "a" "t1" ⟨[], [("b", "t2")], rfl, by decide⟩ (by decide) (by simp) ρ0 ρ0 h0 rfl :)
+    · exact (initializer_is_constant threeSem (evalGraph threeSem 0) outer ["x"] [("a", "t1"), ("b", "t2")] gE.nodes ["y"] []
+        args "b" "t2" ⟨[("a", "t1")], [], rfl, by decide⟩ (by decide) (by simp) ρ0 ρ0 h0 rfl :)
+  · intro x c hx m hm
+    have hxa : x = "a" ∨ x = "b" := by
+      by_cases ha : x = "a"
+      · exact Or.inl ha
+      · by_cases hb : x = "b"
+        · exact Or.inr hb
+        · exfalso
+          have h1 : ("a" == x) = false := by simpa using fun e => ha e.symm
+          have h2 : ("b" == x) = false := by simpa using fun e => hb e.symm
+          simp [infoE, lookupA, List.find?, h1, h2] at hx
+    simp only [gE, Graph.nodes, List.mem_cons, List.mem_nil_iff, or_false] at hm
+    rcases hxa with rfl | rfl <;> rcases hm with rfl | rfl <;> decide
 
 /-! ### a refuted clause (finding C03-D1) -/
 
